@@ -43,7 +43,7 @@ func (c09) Mandatory(tier string) []string {
 	return []string{"kind:string", "kind:int-negative", "kind:int-zero", "kind:uint>=2^63", "kind:bool-true", "kind:bool-false", "tag:control-name", "tag:skip", "tag:multiline",
 		"tag:required-present", "tag:required-empty-written", "required-missing-rejected", "list:default-delim", "list:comma", "list:comma-space", "list:newline", "list:empty-omitted",
 		"list:required-empty", "list:ints", "list:versions", "list:archs", "nested:version", "nested:dependency", "nested:arch", "nested:checksums", "ptr:nil", "ptr:non-nil",
-		"pass:unknown-kept", "pass:overwritten", "pass:cleared", "pass:newly-set", "pass:documents"}
+		"pass:unknown-kept", "pass:overwritten", "pass:cleared", "pass:newly-set", "pass:documents", "pass:marshal-twice", "pass:clear-marshal-set-marshal", "pass:late-embedded-cleared", "pass:all-omittable-struct"}
 }
 
 // ---- probe types ----
@@ -95,6 +95,22 @@ type prPass struct {
 	Ver     version.Version `control:"Version"`
 	Note    string          `control:"X-Note"`
 	Flag    bool
+}
+
+// prPassStr has only fields that can all be omitted.
+type prPassStr struct {
+	control.Paragraph
+	Package string
+	Note    string `control:"X-Note"`
+}
+
+// prPassLate embeds the Paragraph after its known fields (field layout matters
+// to code that fills state while walking the struct).
+type prPassLate struct {
+	Package string
+	Note    string `control:"X-Note"`
+	control.Paragraph
+	Size int
 }
 
 func word(r *core.Rand) string {
@@ -457,11 +473,26 @@ func (p c09) pass(c *core.C, cs c09Pass) {
 	known["Flag"] = map[bool]string{true: "yes", false: "no"}[s.Flag]
 	isKnown := map[string]bool{"Package": true, "Size": true, "Tag": true, "Version": true, "X-Note": true, "Flag": true}
 
+	// Marshal must not modify the value it is given: snapshot the embedded Paragraph
+	snapOrder := append([]string{}, s.Paragraph.Order...)
+	snapValues := map[string]string{}
+	for k, v := range s.Paragraph.Values {
+		snapValues[k] = v
+	}
 	var buf bytes.Buffer
 	if err := control.Marshal(&buf, &s); err != nil {
 		c.Failf("Marshal failed: %v", err)
 		return
 	}
+	if !eqLines(snapOrder, s.Paragraph.Order) || !reflect.DeepEqual(snapValues, s.Paragraph.Values) {
+		c.Failf("Marshal modified the embedded Paragraph of the value it was given: Order %q -> %q", snapOrder, s.Paragraph.Order)
+	}
+	// a second Marshal of the same, unchanged value must give the same text
+	var buf2 bytes.Buffer
+	if err := control.Marshal(&buf2, &s); err != nil || buf2.String() != buf.String() {
+		c.Failf("marshalling the same value twice gives different text (err %v):\n first:  %q\n second: %q", err, buf.String(), buf2.String())
+	}
+	c.Cover("pass:marshal-twice")
 	ref, ok := model.RefRead(buf.String())
 	if !ok || len(ref) != 1 {
 		c.Failf("Marshal output is not one well-formed paragraph: %q", buf.String())
@@ -510,6 +541,123 @@ func (p c09) pass(c *core.C, cs c09Pass) {
 		}
 	}
 	c.Nontrivial()
+	p.passSequence(c, cs)
+}
+
+// passSequence: unmarshal, clear every known field, Marshal, set one field
+// again, Marshal again; and the same document through a struct that embeds the
+// Paragraph after its known fields.
+func (p c09) passSequence(c *core.C, cs c09Pass) {
+	text := cs.Doc.Render()
+	orig := docExpect(cs.Doc)[0]
+	unknownOrder := func(extra ...string) []string {
+		var out []string
+		for _, k := range orig.Order {
+			switch k {
+			case "Package", "Size", "Tag", "Version", "X-Note", "Flag":
+			default:
+				out = append(out, k)
+			}
+		}
+		return append(out, extra...)
+	}
+	var s prPass
+	if control.Unmarshal(&s, strings.NewReader(text)) != nil {
+		return
+	}
+	s.Package, s.Tags, s.Note = "", nil, ""
+	s.Ver = version.Version{}
+	var b1 bytes.Buffer
+	if err := control.Marshal(&b1, &s); err != nil {
+		c.Failf("Marshal after clearing the known fields failed: %v", err)
+		return
+	}
+	s.Note = "set again"
+	var b2 bytes.Buffer
+	if err := control.Marshal(&b2, &s); err != nil {
+		c.Failf("second Marshal failed: %v", err)
+		return
+	}
+	ref, ok := model.RefRead(b2.String())
+	if !ok || len(ref) != 1 {
+		c.Failf("clear-all, Marshal, set X-Note, Marshal: the second output is not one well-formed paragraph: %q (first output %q)", b2.String(), b1.String())
+		return
+	}
+	// expected: Size and Flag are always written (non-empty text); X-Note is back
+	want := map[string]bool{"Size": true, "Flag": true, "X-Note": true}
+	for _, k := range unknownOrder() {
+		want[k] = true
+	}
+	got := map[string]bool{}
+	for _, k := range ref[0].Order {
+		if got[k] {
+			c.Failf("second Marshal lists %q twice: %q", k, ref[0].Order)
+		}
+		got[k] = true
+	}
+	if !reflect.DeepEqual(got, want) {
+		c.Failf("clear-all, Marshal, set X-Note, Marshal: fields %q, want the set %v\noriginal: %q\nsecond output: %q", ref[0].Order, want, text, b2.String())
+	}
+	for _, k := range unknownOrder() {
+		if !eqLines(ref[0].Lines[k], orig.Lines[k]) {
+			c.Failf("unknown field %s changed across two Marshal calls", k)
+		}
+	}
+	c.Cover("pass:clear-marshal-set-marshal")
+
+	// a struct whose known fields can all be omitted: clear them, Marshal, set one, Marshal
+	var q prPassStr
+	if control.Unmarshal(&q, strings.NewReader(text)) == nil {
+		q.Package, q.Note = "", ""
+		snapOrder := append([]string{}, q.Paragraph.Order...)
+		var q1, q2 bytes.Buffer
+		e1 := control.Marshal(&q1, &q)
+		if !eqLines(snapOrder, q.Paragraph.Order) {
+			c.Failf("Marshal of a struct with all known fields cleared modified the caller's embedded Paragraph: Order %q -> %q", snapOrder, q.Paragraph.Order)
+		}
+		q.Note = "back"
+		e2 := control.Marshal(&q2, &q)
+		if e1 == nil && e2 == nil {
+			if r2, ok := model.RefRead(q2.String()); !ok || len(r2) != 1 {
+				c.Failf("all-cleared, Marshal, set X-Note, Marshal: second output is not one well-formed paragraph: %q", q2.String())
+			} else {
+				wantN := 0
+				for _, k := range orig.Order {
+					if k != "Package" && k != "X-Note" {
+						wantN++
+					}
+				}
+				if len(r2[0].Order) != wantN+1 {
+					c.Failf("all-cleared, Marshal, set X-Note, Marshal: second output lists %q; the original had %q\nfirst output: %q", r2[0].Order, orig.Order, q1.String())
+				}
+			}
+		}
+		c.Cover("pass:all-omittable-struct")
+	}
+
+	// Paragraph embedded after known fields
+	var l prPassLate
+	if err := control.Unmarshal(&l, strings.NewReader(text)); err != nil {
+		c.Failf("Unmarshal into a struct embedding Paragraph after its known fields failed: %v", err)
+		return
+	}
+	hadPkg := l.Package != ""
+	l.Package = ""
+	var b3 bytes.Buffer
+	if err := control.Marshal(&b3, &l); err != nil {
+		c.Failf("Marshal (late-embedded Paragraph) failed: %v", err)
+		return
+	}
+	if r3, ok := model.RefRead(b3.String()); ok && len(r3) == 1 {
+		for _, k := range r3[0].Order {
+			if k == "Package" {
+				c.Failf("a cleared known field declared BEFORE the embedded Paragraph was re-emitted with its stale value: %q", b3.String())
+			}
+		}
+	}
+	if hadPkg {
+		c.Cover("pass:late-embedded-cleared")
+	}
 }
 
 func (p c09) genPass(r *core.Rand) c09Pass {
